@@ -244,6 +244,20 @@ func (sc *Scope) ident(name string) Val {
 		}
 		sfail("#idx used outside a range loop")
 	}
+	if strings.HasPrefix(name, "#idx") && sc.fr != nil {
+		// #idxN: the hidden index of range loop N of this function (an enclosing loop, seen from an inner one)
+		var n int
+		if _, err := fmt.Sscanf(name[4:], "%d", &n); err == nil {
+			for _, l := range analyzeLoops(sc.fr.fn).loops {
+				if l.Ordinal == n {
+					if a := sc.fr.rangeIndexAlloc(l); a != nil {
+						return sc.localValue(a)
+					}
+				}
+			}
+		}
+		sfail("%s: no such range loop", name)
+	}
 	if a := sc.lookupLocal(name); a != nil {
 		return sc.localValue(a)
 	}
